@@ -116,7 +116,21 @@ def classify_names(ck, st, items, names):
             if ck.implies(st.pc, z3.And([it.namevar != z3.StringVal(n) for n in names]) if names else True):
                 ck.ok()
             else:
-                ck.engine("leaf is not uniform in the class of item %s" % it.base)
+                # the implementation lumps together inputs that the declaration distinguishes (it never compared this name with a
+                # declared one).  Judge the leaf on the sub-class "the item carries the declared name": the leaf has one outcome, so
+                # if that outcome is wrong for the declared name the violation is real and is replayed with that name.
+                cand = [n for n in names if ck.model_of(list(st.pc) + [it.namevar == z3.StringVal(n)]) is not None]
+                taken = [x.cls for x in items if x is not it and getattr(x, "cls", None)]
+                cand.sort(key=lambda n: n in taken)       # prefer a declared name no other item of the list carries
+                if cand:
+                    st.pc.append(it.namevar == z3.StringVal(cand[0]))
+                    sf = dict(st.extra.get("sfacts") or {})
+                    sf[it.namevar.decl().name()] = ("eq", cand[0])
+                    st.extra["sfacts"] = sf
+                    it.cls = cand[0]
+                    ck.reach("split-leaf")
+                else:
+                    ck.engine("leaf is not uniform in the class of item %s" % it.base)
         it.cls = found
 
 
